@@ -240,3 +240,50 @@ Fixpoint guard_toks (g : N) (l : list ctok) : bool :=
     end
   end.
 Definition css_guard (s : list N) : bool := guard_toks 0 (css_lex s).
+
+(* ---------------------------------------------------------------- separators
+   decomment: the stylesheet as a tagged byte stream with comments removed and every whitespace byte
+   outside strings written as a space.  A specification automaton like [efeed]: it knows comments and
+   strings only. *)
+Definition dtop (dout : list obyte) (c : N) : emode * list obyte :=
+  if c =? 47 then (ESlash, dout)
+  else if is_quote c then (EStr c, (true, c) :: dout)
+  else if is_ws c then (ENorm, (false, 32) :: dout)
+  else (ENorm, (false, c) :: dout).
+
+Definition dfeed (s : emode * list obyte) (c : N) : emode * list obyte :=
+  let '(m, dout) := s in
+  match m with
+  | ENorm => dtop dout c
+  | ESlash => if c =? 42 then (ECom, dout) else dtop ((false, 47) :: dout) c
+  | ECom => if c =? 42 then (EComStar, dout) else (ECom, dout)
+  | EComStar => if c =? 47 then (ENorm, dout) else if c =? 42 then (EComStar, dout) else (ECom, dout)
+  | EStr q => if c =? q then (ENorm, (true, c) :: dout)
+              else if c =? 92 then (EStrEsc q, (true, c) :: dout) else (EStr q, (true, c) :: dout)
+  | EStrEsc q => (EStr q, (true, c) :: dout)
+  end.
+Definition decomment (src : list N) : list obyte := rev (efinish (fold_left dfeed src (ENorm, []))).
+
+(* snorm: the byte-level normal form.  An untagged space is a separator, an untagged ';' a semicolon.
+   A separator is kept only between two bytes of which the first is not one of { } ; , > : and the
+   second is not one of { } ; , > ; semicolons are merged and dropped before '}'.
+   State: previous byte blocks / separator pending / semicolon pending / output (reversed). *)
+Record snst := SN { sn_pb : bool; sn_pw : bool; sn_ps : bool; sn_out : list obyte }.
+Definition sn0 : snst := SN true false false [].
+
+Definition is_sep (x : obyte) : bool := negb (fst x) && (snd x =? 32).
+Definition is_semi (x : obyte) : bool := negb (fst x) && (snd x =? 59).
+
+Definition snstep (st : snst) (x : obyte) : snst :=
+  if is_sep x then (if sn_pb st then st else SN false true (sn_ps st) (sn_out st))
+  else if is_semi x then SN true false true (sn_out st)
+  else
+    let c := snd x in
+    let brace := negb (fst x) && (c =? 125) in
+    let o1 := if sn_ps st && negb brace then (false, 59) :: sn_out st else sn_out st in
+    let o2 := if sn_pw st && negb (sn_pb st) && negb (is_delim c) then (false, 32) :: o1 else o1 in
+    SN (is_delim c || (c =? 58)) false false (x :: o2).
+
+Definition snfinish (st : snst) : list obyte :=
+  rev (if sn_ps st then (false, 59) :: sn_out st else sn_out st).
+Definition snorm (l : list obyte) : list obyte := snfinish (fold_left snstep l sn0).
